@@ -123,11 +123,12 @@ def check(rep, an, tier):
                             rep.check("R-QTY", "intensity scaling returns total captures (baseline re-added once)", None if v.frame is None else v.frame == want,
                                       where=res.fn.loc(), construct="frame of the result of hull_l1_scaling", entry=entry, config=cfg,
                                       msg=f"the result is a {v.frame} capture: the baseline is not removed before / re-added after the common factor")
-                    F.qty(rep, res, entry, subs=("mismatch", "centre"))
+                    F.qty(rep, res, entry, subs=("mismatch", "centre", "frame-ratio"))
                     R.rule_type_errors(rep, res, "SHAPE", "R-SHAPE", entry)
                     R.rule_purity(rep, res, entry)
                     R.rule_effect_free(rep, res, entry)
                     CC.membership_frames(rep, res, entry)
+                    CC.corner_subset(rep, res, entry)
                     if meth == "hull_dist_scaling":
                         CC.corner_map(rep, res, entry)
                     if Fax == "#2":
@@ -170,6 +171,11 @@ def dist_structure(rep, res, entry, Fax):
         a = ev.d["arg"]
         if a.tag("pos_or_nan") or a.sign == "POS":
             rep.holds("R-SIGN", "boundary multiple is positive-or-NaN", where=ev.loc, construct=ev.text(), entry=entry, config=res.config)
+        elif a.tag("raw_quotient_by") is not None:
+            rep.violated("R-SIGN", "boundary multiple is positive-or-NaN", where=ev.loc, construct=ev.text(), entry=entry, config=res.config,
+                         msg="the smallest multiple is taken over the raw quotient by the centred chromatic coordinates: a target at the neutral "
+                             "point (coordinate exactly 0 — every all-zero row is replaced by the neutral point) yields ±inf and targets on the "
+                             "other side yield negative multiples; non-positive multiples must be discarded (set to NaN) before the minimum")
         else:
             rep.undecided("R-SIGN", "boundary multiple is positive-or-NaN", where=ev.loc, construct=ev.text(), entry=entry, config=res.config)
     # totals reused for the re-expansion come from the targets
